@@ -2151,7 +2151,7 @@ class SQLGenerator:
 
             # Sort dependencies by length descending to avoid partial matches
             # (e.g., replace "gross_revenue" before "revenue")
-            sorted_deps = sorted(dependencies, key=len, reverse=True)
+            sorted_deps = sorted(dependencies, key=lambda d: (-len(d), d))
 
             # Replace each metric reference with its SQL expression
             for metric_name in sorted_deps:
@@ -2665,7 +2665,9 @@ LEFT JOIN conversions ON {join_condition}{group_by}{order_clause}{limit_clause}
                     return metric_column(canon_ref)
 
                 formula = metric_obj.sql
-                dependencies = sorted(metric_obj.get_dependencies(self.graph, resolved_context), key=len, reverse=True)
+                dependencies = sorted(
+                    metric_obj.get_dependencies(self.graph, resolved_context), key=lambda d: (-len(d), d)
+                )
                 if not dependencies:
                     # Dependency-free expression metrics are already materialized
                     # in the inner query (when needed), so reuse the alias.
